@@ -27,7 +27,8 @@ LEVEL = 'exploration'
 RULE = ('cases: (shape) uid shape x logger kind x message/argument shape x MAC placement on '
         'the capture layer (initialize_record_handler / get_record_logger_for) and on whole '
         'Test runs (test.logger, plug logger, state logger, framework logger), also with console '
-        'logging (-vv) switched on; (sched) a thread '
+        'logging (-vv) switched on and a slow station handler ahead of the record handlers; whole '
+        'runs in child processes started with no -v / -v / -vv / -vvv; (sched) a thread '
         'that logs through run B / ends run B / starts a run is paused at every reached line '
         'of openhtf/util/logs.py, and right after each of its reads of the openhtf logger\'s handler '
         'list, while another run ends / starts / logs, then released, and '
@@ -107,6 +108,8 @@ def enumerated(tier):
         yield {'k': 'sched', 'action': action, 'op': op, 'idx': idx}
   for idx in range(450 if tier == 'quick' else 900):
     yield {'k': 'exec_sched', 'idx': idx}
+  for v in (0, 1, 2, 3):
+    yield {'k': 'verbosity', 'v': v}
   for n in (1, 2, 5, 20):
     yield {'k': 'seq', 'n': n, 'mode': 'layer'}
     yield {'k': 'seq', 'n': min(n, 5), 'mode': 'test'}
@@ -253,6 +256,12 @@ def judge_record(records, expected, foreign, viol, c, ctx):
     if not (e['t0'] - 2 <= r.timestamp_millis <= e['t1'] + 2):
       bad('timestamp-out-of-range', want=[e['t0'], e['t1']],
           got=r.timestamp_millis)
+    made = (_S.get('created') or {}).get(e['id'])
+    if made is not None and r.timestamp_millis != made:
+      # the time stamp is that of the message, not of the moment a (slow)
+      # handler chain got round to this run's handler
+      bad('timestamp-not-the-time-of-emission', created=made,
+          got=r.timestamp_millis)
   # per-thread emission order
   by_thread = {}
   for e in expected:
@@ -342,14 +351,30 @@ class cli_logging:
       self.h.setFormatter(logs.CliFormatter())
       self.h.setLevel(logging.DEBUG)
       self.h.addFilter(logs.MAC_FILTER)
+      created = _S.setdefault('created', {})
+
+      class SlowStationHandler(logging.Handler):
+        # a station's own (slow) handler ahead of the record handlers; it also
+        # notes when each message was *created*
+        def emit(self, record):
+          try:
+            m = re.search(r'MSG\d{6}', record.getMessage())
+          except Exception:  # pylint: disable=broad-except
+            m = None
+          if m:
+            created[m.group(0)] = int(record.created * 1000)
+            time.sleep(0.012)
+
+      self.slow = SlowStationHandler(level=logging.DEBUG)
       lg = logging.getLogger('openhtf')
-      lg.handlers = [self.h] + list(lg.handlers)
+      lg.handlers = [self.slow, self.h] + list(lg.handlers)
     return self
 
   def __exit__(self, *exc):
     if self.on:
       lg = logging.getLogger('openhtf')
-      lg.handlers = [h for h in lg.handlers if h is not self.h]
+      lg.handlers = [h for h in lg.handlers if h is not self.h and
+                     h is not self.slow]
     return False
 
 
@@ -746,6 +771,91 @@ def run_seq(case):
   return {'sig': case, 'violations': viol, 'counters': c}
 
 
+CHILD_VERBOSITY = r'''
+import json, logging, os, sys
+RESULT = sys.argv[1]
+sys.argv = ['c19-child'] + ['-' + 'v' * VERBOSITY] * (1 if VERBOSITY else 0)
+sys.stdout = open(os.devnull, 'w')  # the console output is not what is judged
+import openhtf as htf
+from openhtf.util import logs
+
+emitted = []
+
+def say(logger, level, text):
+  logger.log(level, text)
+  emitted.append([level, text])
+
+class P(htf.plugs.BasePlug):
+  def hello(self):
+    for lvl in (logging.DEBUG, 15, logging.INFO, logging.WARNING):
+      say(self.logger, lvl, 'plug message at %d' % lvl)
+
+@htf.plugs.plug(p=P)
+def phase(test, p):
+  for lvl in (logging.DEBUG, 15, logging.INFO, logging.WARNING, logging.ERROR):
+    say(test.logger, lvl, 'phase message at %d' % lvl)
+  p.hello()
+  say(logging.getLogger('openhtf.core.vf_framework'), logging.DEBUG,
+      'framework message at 10')
+
+recs = []
+t = htf.Test(phase)
+t.add_output_callbacks(recs.append)
+t.execute()
+out = [[r.level, r.message] for r in recs[0].log_records]
+with open(RESULT, 'w') as f:
+  json.dump({'emitted': emitted, 'recorded': out}, f)
+'''
+
+
+def run_verbosity(case):
+  """A whole run in a child process started with no -v, -v or -vv: whatever the
+  console shows, every message logged through the run's loggers is in the
+  record, at every level."""
+  import json
+  import subprocess
+  import sys
+  import tempfile
+  from vf import harness
+  viol, c = [], new_counters()
+  d = tempfile.mkdtemp(prefix='vf-c19-')
+  script = os.path.join(d, 'child.py')
+  with open(script, 'w') as f:
+    f.write(CHILD_VERBOSITY.replace('VERBOSITY', str(case['v'])))
+  try:
+    result = os.path.join(d, 'result.json')
+    r = subprocess.run([sys.executable, script, result], env=harness.worker_env(),
+                       capture_output=True, text=True, timeout=120)
+    try:
+      with open(result) as f:
+        data = json.load(f)
+    except (OSError, ValueError):
+      raise RuntimeError('verbosity child failed: ' + r.stderr[-400:])
+  finally:
+    import shutil
+    shutil.rmtree(d, ignore_errors=True)
+  recorded = [tuple(x) for x in data['recorded']]
+  c['messages_emitted'] += len(data['emitted'])
+  c['records_judged'] += 1
+  pos = -1
+  for lvl, text in data['emitted']:
+    c['messages_looked_up'] += 1
+    n = recorded.count((lvl, text))
+    if n != 1:
+      viol.append({'mechanism': 'message-%s' % (
+          'lost' if n == 0 else 'recorded-more-than-once'),
+                   'detail': {'verbosity': case['v'], 'level': lvl, 'text': text,
+                              'count': n}})
+      break
+    i = recorded.index((lvl, text))
+    if i < pos:
+      viol.append({'mechanism': 'emission-order-not-preserved',
+                   'detail': {'verbosity': case['v'], 'text': text}})
+      break
+    pos = i
+  return {'sig': case, 'violations': viol, 'counters': c}
+
+
 _EXEC_POINTS = []
 
 
@@ -823,4 +933,5 @@ def run_exec_sched(case):
 def run_case(case):
   return {'shape': run_shape, 'test': run_test, 'sched': run_sched,
           'stress': run_stress, 'seq': run_seq,
-          'exec_sched': run_exec_sched}[case['k']](case)
+          'exec_sched': run_exec_sched,
+          'verbosity': run_verbosity}[case['k']](case)
